@@ -827,7 +827,7 @@ func recvOf(fn *types.Func) types.Type {
 func c13DiskJoin(c *Ctx) {
 	p := c.P
 	const rule = "DISK-JOIN"
-	c.Rule(rule, "storageos joins only validated relative paths under the bucket root, and Walk re-validates every relative path before the callback", 3)
+	c.Rule(rule, "storageos joins only validated relative paths under the bucket root, and Walk re-validates every relative path before the callback", 2)
 	pk := p.Pkg("private/pkg/storage/storageos")
 	if pk == nil {
 		c.Fail(rule, "anchor", token.NoPos, "package storageos not found")
@@ -859,10 +859,7 @@ func c13DiskJoin(c *Ctx) {
 						// root
 						continue
 					}
-					fromSan := dependsOnCall(e, func(cc *ssa.CallCommon) bool {
-						cf := staticCalleeObj(cc)
-						return cf != nil && isSanitizerFunc(cf)
-					})
+					fromSan := c13FromSanitizer(p, e, 2)
 					if !fromSan {
 						ok = false
 						desc = fmt.Sprintf("element %d has origins %v, not a sanitizer result", i, origins)
@@ -899,4 +896,57 @@ func c13DiskJoin(c *Ctx) {
 		}
 	}
 	c.Ob(rule, "storageos.bucket.Walk/revalidates", walk.Decl.Pos(), okW && seenW > 0, true, "%d ObjectInfo construction(s) in Walk; each path derives from a sanitizer result: %v", seenW, okW)
+}
+
+
+// c13FromSanitizer: v depends on a sanitizer result in its own function, or v is (derived from) a parameter of an
+// unexported function all of whose static callers pass a value that does (an extracted helper that receives the
+// already validated path).
+func c13FromSanitizer(p *Prog, v ssa.Value, depth int) bool {
+	isSan := func(cc *ssa.CallCommon) bool {
+		cf := staticCalleeObj(cc)
+		return cf != nil && isSanitizerFunc(cf)
+	}
+	if dependsOnCall(v, isSan) {
+		return true
+	}
+	if depth == 0 {
+		return false
+	}
+	var params []*ssa.Parameter
+	sliceBack(v, func(x ssa.Value) bool {
+		if prm, ok := x.(*ssa.Parameter); ok {
+			params = append(params, prm)
+		}
+		return true
+	})
+	for _, prm := range params {
+		fn := prm.Parent()
+		if fn.Object() == nil || fn.Object().Exported() {
+			continue
+		}
+		if b, ok := prm.Type().Underlying().(*types.Basic); !ok || b.Kind() != types.String {
+			continue // receivers, contexts
+		}
+		idx := -1
+		for i, q := range fn.Params {
+			if q == prm {
+				idx = i
+			}
+		}
+		callers := p.callersIndex()[fn]
+		if idx < 0 || len(callers) == 0 {
+			continue
+		}
+		all := true
+		for _, cs := range callers {
+			if idx >= len(cs.Call.Args) || !c13FromSanitizer(p, cs.Call.Args[idx], depth-1) {
+				all = false
+			}
+		}
+		if all {
+			return true
+		}
+	}
+	return false
 }
